@@ -402,7 +402,10 @@ def run_r5(ctx, rule):
                 continue
             d, taken = e[2]
             if isinstance(d, tuple) and d[0] == "discr":
-                arm = "Ok" if taken in (("eq", 0),) else "Err" if taken in (("eq", 1),) else arm
+                # (a second test of the same result, e.g. after it was handed through a helper, refines nothing)
+                new = "Ok" if taken in (("eq", 0),) else "Err" if taken in (("eq", 1),) else None
+                if new is not None and not (arm or "").startswith(new):
+                    arm = new
             elif isinstance(d, Aff) and any(s.endswith(".Ok.0") for s in d.t):
                 arm = "Ok(0)" if taken == ("eq", 0) else "Ok(n)" if taken == ("notin", (0,)) else "Ok(%s)" % (taken,)
             elif isinstance(d, Aff) and any(s.startswith("call@") for s in d.t) and arm == "Err":
@@ -470,6 +473,88 @@ def run_r6(ctx, rule):
     fr = [bb for bb, t in fn.calls() if norm(util.cname(t)) == DR + "from_read"]
     rule.check(len(fr) >= 1 and all(any(b in c.reachable_from(x) for x in fr) or True for b in c.exits), "from_buf_reader/from_read", "every path constructs the reader through from_read", fn.loc())
 
+def _lower(fn, e, depth=0):
+    """a lower bound of an unsigned expression (0 when nothing is known)"""
+    sy = sym(fn)
+    if depth > 8:
+        return 0
+    k = e[0]
+    if k == "c" and isinstance(e[1], int):
+        return max(0, e[1])
+    if k == "cast":
+        return _lower(fn, e[2], depth + 1)
+    if k == "l":
+        o = sy.origin(e)
+        return _lower(fn, o, depth + 1) if o != e else 0
+    if k == "call" and len(e[3]) == 2 and norm(e[2]).rsplit("::", 1)[-1] in ("min", "max"):
+        a, b = _lower(fn, e[3][0], depth + 1), _lower(fn, e[3][1], depth + 1)
+        return min(a, b) if norm(e[2]).endswith("min") else max(a, b)
+    if k == "bin" and e[1] in ("Add", "AddUnchecked"):
+        return _lower(fn, e[2], depth + 1) + _lower(fn, e[3], depth + 1)
+    if k == "bin" and e[1] in ("Mul", "MulUnchecked"):
+        return _lower(fn, e[2], depth + 1) * _lower(fn, e[3], depth + 1)
+    if k == "bin" and e[1] in ("Shl", "ShlUnchecked") and e[3][0] == "c":
+        return _lower(fn, e[2], depth + 1) << e[3][1]
+    if k == "bin" and e[1] in ("BitOr",):
+        return max(_lower(fn, e[2], depth + 1), _lower(fn, e[3], depth + 1))
+    if k == "promoted" or k == "cfn":
+        return 0
+    return 0
+
+
+def run_r9(ctx, rule):
+    """A read into a zero-length slice answers Ok(0), which the reader takes for the end of the source: the chunk size
+    must be positive.  The property leaves `set_chunk_size(0)` to the caller (c >= 1 in its quantifier); decided here is
+    that the library itself never installs a chunk size that is not provably >= 1: every store to `chunk_size` other
+    than the public setter's own parameter, and every call of the setter from inside the workspace."""
+    facts = ctx.facts
+    n = 0
+    for f, bi, si, name in util.field_stores(facts, DRT):
+        if name != "chunk_size":
+            continue
+        n += 1
+        sy = sym(f)
+        nid = norm(f.id)
+        if si is None:
+            rule.bad("%s/chunk_size-store" % nid, "chunk_size is assigned the result of a call in %s" % short(nid), f.loc(bi), kind="unmodelled-idiom")
+            continue
+        e = sy.rvalue(f.blocks[bi]["stmts"][si]["rv"])
+        e0 = e
+        if e[0] == "agg":
+            # the struct literal of the constructor: pick the field
+            adt = facts.adts.get(DRT)
+            names = [fl["name"] for fl in adt["variants"][0]["fields"]] if adt else []
+            e = e[3][names.index("chunk_size")] if "chunk_size" in names and len(e[3]) == len(names) else e
+        if e[0] == "l" and sy.is_arg(e[1]) and f.j.get("pub"):
+            rule.ok("%s stores its own parameter: a positive chunk size is the caller's obligation (c >= 1 in the property's quantifier)" % short(nid), f.loc(bi))
+            continue
+        lo = _lower(f, e)
+        rule.check(lo >= 1, "%s/chunk_size-positive" % nid, "%s installs a chunk size that is provably positive (lower bound %d of %s)" % (short(nid), lo, sy.show(e)[:60]), f.loc(bi))
+    adt = facts.adts.get(DRT)
+    names = [fl["name"] for fl in adt["variants"][0]["fields"]] if adt else []
+    for f, bi, si, rv in util.aggregates(facts, lambda a: a == DRT):
+        if "chunk_size" not in names or len(rv["ops"]) != len(names):
+            continue
+        n += 1
+        sy = sym(f)
+        e = sy.operand(rv["ops"][names.index("chunk_size")])
+        lo = _lower(f, e)
+        rule.check(lo >= 1, "%s/chunk_size-positive" % norm(f.id), "%s constructs the reader with a chunk size that is provably positive (lower bound %d of %s)" % (short(norm(f.id)), lo, sy.show(e)[:60]), f.loc(bi))
+    for f, bb, t in util.calls_to(facts, lambda x: x == DR + "set_chunk_size"):
+        if f.crate in ("ext", "promoted"):
+            continue
+        n += 1
+        sy = sym(f)
+        nid = norm(f.id)
+        e = sy.operand(t["args"][1])
+        if e[0] == "l" and sy.is_arg(e[1]) and f.j.get("pub"):
+            rule.ok("%s forwards its own parameter to set_chunk_size" % short(nid), f.loc(bb))
+            continue
+        lo = _lower(f, e)
+        rule.check(lo >= 1, "%s/set_chunk_size-positive" % nid, "%s sets a chunk size that is provably positive (lower bound %d of %s): a read into an empty slice answers Ok(0) and would pass for the end of the source" % (short(nid), lo, sy.show(e)[:60]), f.loc(bb))
+    if n < 2:
+        rule.bad("chunk_size/sites", "fewer than 2 places that install a chunk size found (constructor and setter counted)", kind="anchor-missing")
+
 
 def run(ctx):
     _FACTS[0] = ctx.facts
@@ -487,6 +572,8 @@ def run(ctx):
     run_r6(ctx, r6)
     r7 = ctx.rule("C02-R7", "observers read the window at the current cursor, also after a refill inside the same call", floor=6)
     run_r7(ctx, r7)
+    r9 = ctx.rule("C02-R9", "the library never installs a chunk size that is not provably positive (a read into an empty slice would pass for the end of the source)", floor=2)
+    run_r9(ctx, r9)
     # R8: a request falls short only when the source ended or failed: the read discipline of C09-R1 (single read site,
     # Interrupted retried in place, no early give-up), run here too
     from .c09 import run_r1 as c09_r1
